@@ -351,7 +351,24 @@ def run(ctx):
         ctx.case(classes, key, nontrivial=ln >= 2)
         if ln <= 3:
             ctx.sample({"nodes": nodes, "flat": flat}, tag=classes[0], per_tag=1)
+        pristine = [[list(pt) for pt in node] for node in nodes]
         one_case(ctx, mon, nodes, flat)
+        if classes[0] == "integer lattice control points":
+            # history: the same path with -1 and -2 exchanged (hash(-1) == hash(-2) in CPython), same flatness
+            swap = {-1: -2, -2: -1}
+            twin = [[[swap.get(v, v) for v in pt] for pt in node] for node in pristine]
+            if twin != pristine:
+                ctx.case(["history: the -1/-2 twin of the previous path, same flatness"],
+                         (tuple(tuple(tuple(pt) for pt in node) for node in twin), flat, "twin"))
+                one_case(ctx, mon, twin, flat)
+        if rng.random() < 0.15 and len(nodes) < 3000:
+            # history: the already subdivided list again, with the same and with a finer flatness
+            for flat2 in (flat, flat / rng.choice((2.0, 3.0, 7.5))):
+                if len(nodes) > 20000:
+                    break
+                ctx.case(["history: subdividing an already subdivided path again"],
+                         (tuple(tuple(tuple(pt) for pt in node) for node in nodes[:40]), flat2, len(nodes)))
+                one_case(ctx, mon, nodes, flat2)
     # constructed classes with their own monitor modes
     for _ in range(ctx.budget(1500, 15000)):
         classes, nodes, flat = gen_exact(rng)
@@ -360,6 +377,31 @@ def run(ctx):
         mon.mode = "exact"
         one_case(ctx, mon, nodes, flat)
         mon.mode = None
+    # a flat piece, then its -1/-2 twin that is NOT flat at the same flatness (separate calls and
+    # as consecutive pieces of one path); ints and floats
+    for _ in range(ctx.budget(300, 3000)):
+        horizontal = rng.random() < 0.5
+        num = float if rng.random() < 0.5 else int
+        length = rng.choice((3, 4, 6, 9))
+        x0, y0 = rng.randint(-4, 4), 0
+
+        def piece(off, _h=horizontal, _n=num, _l=length, _x=x0, _y=y0):
+            pts = [(_x, _y), (_x + 1, _y + off), (_x + _l - 1, _y + off), (_x + _l, _y)]
+            if not _h:
+                pts = [(b, a) for a, b in pts]
+            return [[_n(a), _n(b)] for a, b in pts]
+        first_off, second_off = rng.choice(((-1, -2), (-1, -2), (-2, -1)))
+        flat_v = 1.5
+        paths = []
+        for off in (first_off, second_off):
+            p0, p1, p2, p3 = piece(off)
+            paths.append([[list(p0), list(p0), list(p1)], [list(p2), list(p3), list(p3)]])
+        if rng.random() < 0.3:          # both in one path: ... P then P' joined end to start is not possible
+            paths = [paths[0], paths[1], paths[0]]
+        for nodes_t in paths:
+            ctx.case(["history: a flat piece and its -1/-2 twin at the same flatness"],
+                     (tuple(tuple(tuple(pt) for pt in node) for node in nodes_t), flat_v, len(paths)))
+            one_case(ctx, mon, [[list(pt) for pt in node] for node in nodes_t], flat_v)
     for _ in range(ctx.budget(1, 3)):
         if not ctx.alive():
             break
@@ -373,7 +415,10 @@ def run(ctx):
     for cls in ("already flat (handles on the chord)", "handles equal to their nodes (straight lines)",
                 "circular arcs", "S-curves", "loops (handles cross)", "cusps",
                 "coincident end points (closed piece)", "integer lattice control points",
-                "repeated node (fully degenerate piece)", "random control points", "nodes=1", "nodes=2", "nodes=3..12",
+                "repeated node (fully degenerate piece)", "random control points",
+                "history: subdividing an already subdivided path again",
+                "history: the -1/-2 twin of the previous path, same flatness",
+                "history: a flat piece and its -1/-2 twin at the same flatness", "nodes=1", "nodes=2", "nodes=3..12",
                 "flat/scale=1e-5..1e-4", "flat/scale=1e-4..1e-3", "flat/scale=1e-3..1e-2",
                 "flat/scale=1e-2..1e-1", "flat/scale=1e-1..1e0",
                 "outcome:piece subdivided", "outcome:piece left whole"):
